@@ -221,6 +221,8 @@ func c08System(base string) *explore.System {
 		txOp("CreateDenom(dd,B)", s(B), pnfttypes.NewMsgCreateDenomRequest("dd", "S2", "second", "desc", "uri", "hash", B.Bech, "data")),
 		txOp("UpdateDenom(d,A)", s(A), pnfttypes.NewMsgUpdateDenomRequest("d", "", "renamed", "new desc", "", "", "{\"k\":1}", A.Bech)),
 		txOp("Mint(d,tt,A)", s(A), pnfttypes.NewMsgMintPNFTRequest("d", "tt", "tok2", "d", "u", "h", A.Bech, "x")),
+		// a token with every optional field set whose id sorts BEFORE the populated base's token t (all optional fields empty)
+		txOp("Mint(d,s,A)", s(A), pnfttypes.NewMsgMintPNFTRequest("d", "s", "tok0", "blood test of 2024-05", "ipfs://s", "hs", A.Bech, "{\"kind\":\"lab\"}")),
 		txOp("Mint(d,tt,B)", s(B), pnfttypes.NewMsgMintPNFTRequest("d", "tt", "tok2b", "", "", "", B.Bech, "")),
 		txOp("TransferPNFT(d,t,A->B)", s(A), pnfttypes.NewMsgTransferPNFTRequest("d", "t", A.Bech, B.Bech)),
 		txOp("TransferPNFT(d,t,B->W)", s(B), pnfttypes.NewMsgTransferPNFTRequest("d", "t", B.Bech, W.Bech)),
